@@ -209,7 +209,6 @@ type reentryLimits struct {
 var (
 	cfgStd    = reentryLimits{"cpu2e6-mem64M", runLimits}
 	cfgSmall  = reentryLimits{"cpu3e5-mem64M", srcLimits}
-	cfgLong   = reentryLimits{"cpu5e7-mem64M", bigLimits}
 	cfgTight  = reentryLimits{"cpu5e7-mem16M", rt.RuntimeContextDef{HardLimits: rt.RuntimeResources{Cpu: 50_000_000, Memory: 16 << 20}}}
 	cfgWide   = reentryLimits{"cpu5e7-mem512M", rt.RuntimeContextDef{HardLimits: rt.RuntimeResources{Cpu: 50_000_000, Memory: 512 << 20}}}
 	cfgWideQ  = reentryLimits{"cpu2e7-mem512M", rt.RuntimeContextDef{HardLimits: rt.RuntimeResources{Cpu: 20_000_000, Memory: 512 << 20}}}
@@ -229,7 +228,7 @@ func (x *exec) configsFor(p reentryProg) []reentryLimits {
 		if san {
 			return []reentryLimits{cfgStd, cfgTight}
 		}
-		return []reentryLimits{cfgStd, cfgLong, cfgTight, cfgWide}
+		return []reentryLimits{cfgStd, cfgTight, cfgWide}
 	}
 	if san {
 		return []reentryLimits{cfgSmall}
